@@ -25,7 +25,7 @@ from props.c07 import enc, dec, cfg_tokens, canon_point, get_parser, local_zone
 
 PROP = "C08"
 QUICK_BOOST = 2
-LEAN_MODULES = ["IsoDT.Props.C08", "IsoDT.Props.C08b"]
+LEAN_MODULES = ["IsoDT.Props.C08", "IsoDT.Props.C08b", "IsoDT.Props.C08c", "IsoDT.Props.C08d"]
 TRUSTED_EXTRA = c07.TRUSTED_EXTRA
 RULE = ("points in all three representations x whole-second / decimal hour, minute, second forms (1-6 "
         "digits) x 24:00 x offsets from the boundary list and uniform in -99:59..+99:59 x years at the "
